@@ -136,6 +136,24 @@ func hasProv(items ...string) func(m *Matcher, v ssa.Value) bool {
 	}
 }
 
+// hasProvX is hasProv over local and imported items (operand classes that must
+// survive extraction of the check, or of the computation, into a helper).
+func hasProvX(items ...string) func(m *Matcher, v ssa.Value) bool {
+	return func(m *Matcher, v ssa.Value) bool {
+		s := m.Prov(v)
+		for _, it := range items {
+			if strings.HasSuffix(it, "*") {
+				if !s.HasPrefixX(strings.TrimSuffix(it, "*")) {
+					return false
+				}
+			} else if !s.HasX(it) {
+				return false
+			}
+		}
+		return true
+	}
+}
+
 func provAnd(fs ...func(m *Matcher, v ssa.Value) bool) func(m *Matcher, v ssa.Value) bool {
 	return func(m *Matcher, v ssa.Value) bool {
 		for _, f := range fs {
@@ -151,7 +169,7 @@ func lacksProv(items ...string) func(m *Matcher, v ssa.Value) bool {
 	return func(m *Matcher, v ssa.Value) bool {
 		s := m.Prov(v)
 		for _, it := range items {
-			if s.Has(it) {
+			if s.HasLocal(it) {
 				return false
 			}
 		}
